@@ -1,3 +1,60 @@
-import Econf.Parser
+import Econf.Lemmas.ParserLemmas
+
+/-!
+  C04 — no file content can corrupt memory, crash or hang the read.
+
+  What is proved about the model: for EVERY byte sequence, delimiter set, comment set and option,
+  the read terminates (all functions of `Econf/Parser.lean` are total: structural recursion
+  accepted by Lean, no fuel, no `partial`) and returns either an object or one of the four
+  documented parse errors together with the number of a line of the file.
+  What is not proved: that the C pointer walks stay inside their buffers (the planned
+  index-level "Low" model is not built).  That part of the property rests on the correspondence
+  run of this check under AddressSanitizer/UBSan (exhaustive short inputs, mutated documents,
+  long lines) — see DESIGN.md section 10.
+-/
+
+set_option linter.unusedSimpArgs false
+
 namespace Econf
+
+/-- the read of any content returns an object or a documented parse error naming an existing line -/
+theorem C04_read_total (cfg : Cfg) (content : Str) :
+    (∃ st, parseBytes cfg content = .ok st) ∨
+    (∃ e n, parseBytes cfg content = .error (e, n) ∧ ParseErr e ∧ 1 ≤ n ∧ n ≤ lineCount content) := by
+  unfold parseBytes
+  simp only
+  cases h : parseLines { cfg with comment := if cfg.comment.isEmpty then [0x23] else cfg.comment } {} (splitLines content) with
+  | ok st => exact Or.inl ⟨_, rfl⟩
+  | error en =>
+    obtain ⟨e, n⟩ := en
+    have := parseLines_err _ _ _ _ _ h
+    simp at this
+    exact Or.inr ⟨e, n, rfl, this.1, by omega, this.2.2⟩
+
+/-- per line, for every parser state -/
+theorem C04_line_total (cfg : Cfg) (st : PState) (raw : Str) :
+    (∃ st', parseLine cfg st raw = .ok st') ∨ (∃ e, parseLine cfg st raw = .error e ∧ ParseErr e) := by
+  cases h : parseLine cfg st raw with
+  | ok st' => exact Or.inl ⟨st', rfl⟩
+  | error e => exact Or.inr ⟨e, rfl, parseLine_err _ _ _ _ h⟩
+
+/-- line splitting loses nothing: the lines concatenate to the content -/
+theorem C04_split_lossless (content : Str) : (splitLines content).flatten = content := by
+  induction content with
+  | nil => rfl
+  | cons x xs ih =>
+    unfold splitLines
+    split
+    · rename_i hx
+      simp only [List.flatten_cons, ih]
+      simp at hx; simp [hx]
+    · split
+      · rename_i h0
+        rw [h0] at ih
+        simp at ih; simp [← ih]
+      · rename_i l ls h0
+        rw [h0] at ih
+        simp only [List.flatten_cons] at ih ⊢
+        rw [← ih]; rfl
+
 end Econf
